@@ -5,9 +5,9 @@ from vlib import core, coq, gen_consts
 
 
 def setup():
-    changed, err = gen_consts.regenerate()
-    if err:
-        print("constants translator failed: " + err)
+    changed, errs = gen_consts.regenerate()
+    if errs:
+        print("constants translator failed: %r" % (errs,))
         return 1
     with coq.locked():
         coq.ensure_project()
@@ -28,9 +28,13 @@ def run_check(prop, tier, replay=None):
     except ImportError as e:
         print("no check for %s: %s" % (prop, e))
         return 2
-    # 1. translator
-    changed, err = gen_consts.regenerate()
-    if err:
+    # 1. translator (only the generated files in this property's cone matter)
+    changed, errs = gen_consts.regenerate()
+    cone = coq.cone(mod.PROPERTY_FILES)
+    mine = {k: v for k, v in errs.items() if k == "*" or ("Gen/%s.v" % k) in cone
+            or any(("BobV.Gen.%s" % k) in open(os.path.join(coq.COQ, f)).read() for f in cone if os.path.exists(os.path.join(coq.COQ, f)))}
+    if mine:
+        err = "; ".join("%s: %s" % kv for kv in sorted(mine.items()))
         ctx.tie_broken("constants-translator", err)
         ctx.proof = {"ok": False, "failed": [{"what": "translator", "detail": err}], "obligations": 1,
                      "discharged": 0, "theorems": [], "axioms": {}, "checker_cmd": "gen_consts"}
